@@ -3,6 +3,7 @@
 package omni
 
 import (
+	"bytes"
 	"errors"
 	"fmt"
 	"io"
@@ -10,6 +11,7 @@ import (
 	"runtime"
 	"strconv"
 	"strings"
+	"sync"
 
 	"github.com/jf-tech/omniparser"
 	"github.com/jf-tech/omniparser/customfuncs"
@@ -296,4 +298,43 @@ var Ext = omniparser.Extension{
 // NewSchema parses a schema with the harness extension.
 func NewSchema(content []byte) (omniparser.Schema, error) {
 	return omniparser.NewSchema("schema", strings.NewReader(string(content)), Ext)
+}
+
+// ---- a transform over unrelated data, run in between the observed ones ----
+
+var (
+	foreignOnce              sync.Once
+	foreignXML, foreignJSON  omniparser.Schema
+	foreignXMLIn, foreignJIn []byte
+)
+
+// RunForeign runs two small unrelated transforms (a namespaced XML document and a JSON document with every value type, both using
+// javascript) to their end in this process. Whatever process-wide state the library keeps (node pool, expression and program
+// caches, javascript runtimes) has then been used by somebody else before the next observed transform starts.
+func RunForeign() {
+	foreignOnce.Do(func() {
+		foreignXML, _ = NewSchema([]byte(`{"parser_settings":{"version":"omni.2.1","file_format_type":"xml"},"transform_declarations":{"FINAL_OUTPUT":{"xpath":"/inv:doc/inv:item","object":{
+			"id":{"xpath":"inv:id"},"js":{"custom_func":{"name":"javascript_with_context","args":[{"const":"JSON.stringify(_node)"}]}},"all":{"array":[{"xpath":"*","object":{"t":{"xpath":"."}}}]}}}}}`))
+		foreignJSON, _ = NewSchema([]byte(`{"parser_settings":{"version":"omni.2.1","file_format_type":"json"},"transform_declarations":{"FINAL_OUTPUT":{"xpath":"/*","object":{
+			"id":{"xpath":"id"},"cp":{"custom_func":{"name":"copy","args":[{"xpath":"."}]}},"js":{"custom_func":{"name":"javascript","args":[{"const":"n * 2 + s.length"},{"const":"n"},{"xpath":"num","type":"float"},{"const":"s"},{"xpath":"str"}]}}}}}}`))
+		var x, j strings.Builder
+		x.WriteString(`<inv:doc xmlns:inv="urn:inv" xmlns:o="urn:o">`)
+		j.WriteString("[")
+		for i := 0; i < 12; i++ {
+			fmt.Fprintf(&x, `<inv:item o:k="%d"><inv:id>x%d</inv:id><o:n>%d</o:n><inv:f1>t</inv:f1><inv:f2/><o:f3>u<inv:deep>v</inv:deep></o:f3></inv:item>`, i, i, i)
+			if i > 0 {
+				j.WriteString(",")
+			}
+			fmt.Fprintf(&j, `{"id":"j%d","num":%d.5,"str":"s","b":true,"nul":null,"arr":[1,"a",[2],{"k":false}],"obj":{"n":1,"f1":2,"f2":[3]}}`, i, i)
+		}
+		x.WriteString(`</inv:doc>`)
+		j.WriteString("]")
+		foreignXMLIn, foreignJIn = []byte(x.String()), []byte(j.String())
+	})
+	if foreignXML != nil {
+		RunAll(foreignXML, bytes.NewReader(foreignXMLIn), RunOpts{MaxReads: 100})
+	}
+	if foreignJSON != nil {
+		RunAll(foreignJSON, bytes.NewReader(foreignJIn), RunOpts{MaxReads: 100})
+	}
 }
